@@ -1,12 +1,13 @@
 """Shared evaluation for C07/C08: one coqc run evaluates, for every (universe, version, observed
 document) case, the model/implementation agreement and the property oracles of
 coq/Model/Schema.v on the implementation's own output."""
+import concurrent.futures
 import re
 
 from common import *  # noqa
 import typegen as T
 
-HEADER = """From Gleece Require Import Base.Bytes Model.Project Model.Spec Model.Schema.
+HEADER = """From Gleece Require Import Base.Bytes Model.Project Model.Spec Model.Schema Proofs.SchemaProofs.
 From Coq Require Import String.
 Definition case := (nat * dialect * universe * option doc)%type.
 Definition cid (c : case) : nat := fst (fst (fst c)).
@@ -32,6 +33,9 @@ Definition c07_detail (c : case) : list nat :=
   let '(_, v, u, o) := c in match o with Some d => c07_failed u d | None => [] end.
 Definition c08_detail (c : case) : list nat :=
   let '(_, v, u, o) := c in match o with Some d => failed_clauses (u_cfg u) d | None => [] end.
+(* the decidable hypotheses of the C07 / C08 theorems, for the evidence *)
+Definition hyp_well_linked (c : case) : bool := let '(_, v, u, o) := c in well_linked_b v u.
+Definition hyp_unique_quiet (c : case) : bool := let '(_, v, u, o) := c in unique_type_names_b u && quiet u.
 Definition model_none (c : case) : bool :=
   let '(_, v, u, o) := c in match model_out v u with None => true | Some _ => false end.
 """
@@ -57,7 +61,7 @@ def evaluate(prop, cases, tag="cases", shard=40):
     disagree_comps, disagree_doc, c07_fail {id: clauses}, c08_fail {id: clauses}, model_none,
     unprojectable {id: reason}."""
     res = {"disagree_comps": [], "disagree_doc": [], "c07_fail": {}, "c08_fail": {}, "model_none": [],
-           "unprojectable": {}}
+           "unprojectable": {}, "well_linked": [], "unique_quiet": []}
     terms = {}
     for i, (v, u, spec) in enumerate(cases):
         try:
@@ -65,7 +69,8 @@ def evaluate(prop, cases, tag="cases", shard=40):
         except T.Unprojectable as e:
             res["unprojectable"][i] = str(e)
     ids = sorted(terms)
-    for lo in range(0, len(ids), shard):
+
+    def run_shard(lo):
         chunk = ids[lo:lo + shard]
         body = HEADER + "Definition cases : list case :=\n [" + ";\n ".join(terms[i] for i in chunk) + "].\n" + \
             "Definition disagree_comps := Eval vm_compute in map cid (filter (fun c => negb (agrees_comps c)) cases).\n" \
@@ -73,11 +78,24 @@ def evaluate(prop, cases, tag="cases", shard=40):
             "Definition c07_fail := Eval vm_compute in map (fun c => (cid c, c07_detail c)) (filter (fun c => negb (holds_c07 c)) cases).\n" \
             "Definition c08_fail := Eval vm_compute in map (fun c => (cid c, c08_detail c)) (filter (fun c => negb (holds_c08 c)) cases).\n" \
             "Definition model_none_ids := Eval vm_compute in map cid (filter model_none cases).\n" \
-            "Print disagree_comps.\nPrint disagree_doc.\nPrint c07_fail.\nPrint c08_fail.\nPrint model_none_ids.\n"
-        out = run_coq_file(prop, "%s_%d" % (tag, lo), body)
+            "Definition well_linked_ids := Eval vm_compute in map cid (filter hyp_well_linked cases).\n" \
+            "Definition unique_quiet_ids := Eval vm_compute in map cid (filter hyp_unique_quiet cases).\n" \
+            "Print disagree_comps.\nPrint disagree_doc.\nPrint c07_fail.\nPrint c08_fail.\nPrint model_none_ids.\n" \
+            "Print well_linked_ids.\nPrint unique_quiet_ids.\n"
+        return run_coq_file(prop, "%s_%d" % (tag, lo), body)
+
+    los = list(range(0, len(ids), shard))
+    if len(los) > 1:
+        with concurrent.futures.ThreadPoolExecutor(max_workers=8) as ex:
+            outs = list(ex.map(run_shard, los))
+    else:
+        outs = [run_shard(lo) for lo in los]
+    for out in outs:
         res["disagree_comps"] += parse_nat_list(out, "disagree_comps")
         res["disagree_doc"] += parse_nat_list(out, "disagree_doc")
         res["model_none"] += parse_nat_list(out, "model_none_ids")
+        res["well_linked"] += parse_nat_list(out, "well_linked_ids")
+        res["unique_quiet"] += parse_nat_list(out, "unique_quiet_ids")
         res["c07_fail"].update(parse_pairs(out, "c07_fail"))
         res["c08_fail"].update(parse_pairs(out, "c08_fail"))
     return res
